@@ -10,7 +10,9 @@ import engine
 RULE = ("docgen packages (binary media, custom XML, unrelated members) and the corpus, html random; the saved archive "
         "is compared member by member with the model's description (Save.save), then: names each once, untouched "
         "members byte-identical, re-extraction equal under both duplicate_merged_cells settings, second save "
-        "unchanged, random text-node / relationship-target edits carried over, input untouched; "
+        "unchanged, random text-node / relationship-target edits carried over, input untouched; stream `retarget`: a hyperlink "
+        "relationship re-pointed through File.rels_element (before or after File.rels / the part were read), saved, "
+        "and the saved file saved again: the content part is reproduced; "
         "non-trivial = has images or a second content part or a table; distinct = package bytes")
 
 
@@ -27,15 +29,29 @@ def run(ctx):
     n = 80 if ctx["tier"] == "quick" else 3000
     fn = "eval_save" if ctx["model_ok"] else "eval_save_nomodel"
     results = engine.sweep("archsweep", fn, cases(ctx, n), chunksize=2)
-    return archsweep.summarise(ctx, results, RULE, "Save.save <-> DocxReader.save (written archive, member by member)",
-                               lambda fs: bool(fs & {"drawing", "pict", "table", "header_part", "footer_part", "corpus"}))
+    res = archsweep.summarise(ctx, results, RULE, "Save.save <-> DocxReader.save (written archive, member by member)",
+                              lambda fs: bool(fs & {"drawing", "pict", "table", "header_part", "footer_part", "corpus"}))
+    # relationships re-pointed through the reader, then saved twice
+    m = 60 if ctx["tier"] == "quick" else 1500
+    r2 = engine.sweep("archsweep", "eval_retarget", [("retarget", engine.sub_seed(ctx["seed"], i, "C16r")) for i in range(m)])
+    s2 = archsweep.summarise(ctx, r2, RULE, "", lambda fs: "retargeted" in fs)
+    res["violations"] += [v for v in s2["violations"] if not v["what"].startswith("retarget_render")]
+    res["corr_broken"] += s2["corr_broken"]
+    res["evaluations"] += s2["evaluations"]
+    res["retarget_cases"] = s2["feature_histogram"].get("retargeted", 0)
+    res["stream_histogram"].update(s2["stream_histogram"])
+    return res
 
 
 def search(ctx, broken, corr_broken):
     args = [(c["stream"], c["seed"]) for c in corr_broken if "seed" in c]
     args += [("main", engine.sub_seed(ctx["seed"] + 1, i, "C16")) for i in range(600)]
     results = engine.sweep("archsweep", "eval_save_nomodel", args, chunksize=4)
-    return archsweep.summarise(ctx, results, RULE, "", lambda fs: True)["violations"]
+    out = archsweep.summarise(ctx, results, RULE, "", lambda fs: True)["violations"]
+    r2 = engine.sweep("archsweep", "eval_retarget", [("retarget", engine.sub_seed(ctx["seed"] + 1, i, "C16r")) for i in range(300)])
+    out += [v for v in archsweep.summarise(ctx, r2, RULE, "", lambda fs: True)["violations"]
+            if not v["what"].startswith("retarget_render")]
+    return out
 
 
 def replay(ctx, path):
@@ -43,7 +59,11 @@ def replay(ctx, path):
     if "seed" not in d:
         print("replay file names no input:", d.get("note"))
         return 1
-    r = archsweep.eval_save({"model": None}, (d["stream"], d["seed"]))
+    if d["stream"] == "retarget":
+        r = archsweep.eval_retarget({"model": None}, (d["stream"], d["seed"]))
+        r["fails"] = [x for x in r["fails"] if x[0] != "retarget_render"]
+    else:
+        r = archsweep.eval_save({"model": None}, (d["stream"], d["seed"]))
     if r["fails"]:
         print(f"VIOLATION property=C16 replay={path}")
         for f in r["fails"]:
